@@ -140,3 +140,42 @@ def deep_pedigree_tables(tskit, G, order_seed):
     t.mutations.add_row(site=0, node=2 * G + 1, derived_state="G")
     t.sort()
     return t
+
+
+def coord_regime_spec(scale, sites=False):
+    """Four trees whose breakpoints sit in an extreme floating-point regime: one ulp apart, near the largest double,
+    or among the subnormals."""
+    import math
+
+    if scale == "ulp":
+        a = 1.0
+        b = math.nextafter(a, math.inf)
+        bps = [0.0, a, b, math.nextafter(b, math.inf), 2.0]
+    elif scale == "huge":
+        a = 0.95e308
+        b = math.nextafter(a, math.inf)
+        bps = [0.0, 0.5e308, a, b, 1.7e308]
+    elif scale == "ulp_odd":
+        a = math.nextafter(3.0, math.inf)
+        b = math.nextafter(a, math.inf)
+        c = math.nextafter(b, math.inf)
+        bps = [0.0, a, b, c, math.nextafter(c, math.inf), 4.0]
+    else:
+        a = 5e-324
+        bps = [0.0, a, 2 * a, 1e-300, 1.0]
+    n = len(bps)
+    nodes = [[1, 0.0, -1, -1, ""], [1, 0.0, -1, -1, ""], [1, 0.0, -1, -1, ""]] + [[0, 1.0 + i, -1, -1, ""] for i in range(n)]
+    edges = []
+    for i in range(n - 1):
+        p_ = 3 + i
+        edges.append([bps[i], bps[i + 1], p_, 0, ""])
+        edges.append([bps[i], bps[i + 1], p_, 1 + (i % 2), ""])
+    times = [nd[1] for nd in nodes]
+    edges.sort(key=lambda e: (times[e[2]], e[2], e[3], e[0]))
+    st_, mu = [], []
+    if sites:
+        for i in range(n - 1):
+            st_.append([bps[i], "A", ""])
+            mu.append([i, 0, "T", -1, None, ""])
+    return dict(L=bps[-1], nodes=nodes, edges=edges, sites=st_, mutations=mu, individuals=[], populations=[],
+                migrations=[])
